@@ -36,14 +36,14 @@ def async_fix_in_code():
 ASYNC_FIX = False
 
 
-def run_and_validate(ctx, binary, name, scenarios, timeout=1800):
+def run_and_validate(ctx, binary, name, scenarios, timeout=1800, env_extra=None, tolerate_aborted=False):
     """Returns (ok, info). info on rejection: dict(scenario=..., trace=[...], line=...)."""
     d = ctx.sub("t_" + name)
     inp, outp = os.path.join(d, "scen.ndjson"), os.path.join(d, "trace.ndjson")
     with open(inp, "w") as fh:
         for s in scenarios:
             fh.write(json.dumps(s) + "\n")
-    r = vlib.run_harness(ctx, binary, "tscen", args={"in": inp, "out": outp}, timeout=timeout)
+    r = vlib.run_harness(ctx, binary, "tscen", args={"in": inp, "out": outp}, timeout=timeout, env_extra=env_extra)
     recs, summ = vlib.harness_summary(ctx, r, "tscen")
     problems = [x for x in recs if x.get("k") == "problem"]
     ctx.evaluations += summ["events"]
